@@ -16,7 +16,11 @@ RULE = ("format: the spec grammar fill{none,' ',*,0,x} x align{none,<,>,=} x sig
         "the grammar) x shapes {u0,u1,u4,u8,u16,u24,u32,s1,s5,s8} x corner/random values; every accepted "
         "spec is simulated in a sync Print and compared with str.format; acceptance compared with "
         "Python's own verdict. timing: random sync programs with Print/Assert/Assume under nested "
-        "control flow, stepped edge by edge with stdout captured per step. non-trivial: accepted spec "
+        "control flow, stepped edge by edge with stdout captured per step. messages: hand-written monitors in a "
+        "domain clocked on either edge with Print(*args, sep, end) over plain strings, values, Format objects "
+        "with 0-3 fields, literal braces and nested Formats, Assert/Assume on arbitrary expressions "
+        "(complements, casts, arithmetic; zero in their own shape or not) with str/Format/no message, under If; "
+        "text, instant (active edge only) and stop compared at every event. non-trivial: accepted spec "
         "with a non-empty option, or a program with a print/assert under a conditional; distinct by "
         "(spec, shape) / program skeleton.")
 ASSUMPTIONS = ["oracle = Python format() on the integer in its shape; 'c' values restricted to valid non-surrogate code points; "
@@ -420,8 +424,199 @@ def run_gated(rng, out):
     out["fps"].add(fp(["gated", cfg, steps[:6]]))
 
 
+# ------------------------------------------------------------------------------------------------
+# messages and conditions
+# ------------------------------------------------------------------------------------------------
+LITERALS = ["", "x", "state ", " = ", "{{", "}}", "{{}}", "{{idle}}", "100%", "a}}b", "{{0}}", "\\n", "'q'", "{{:d}}"]
+FIELDS = ["{}", "{:d}", "{:x}", "{:>4}", "{:+d}", "{:#b}", "{:03}", "{:_b}", "{0}", "{:<3d}"]
+ENV4 = [(4, False), (4, True), (1, False), (8, False)]
+
+
+def gen_template(rng, nfields=None):
+    """-> (format template, [value expression IR]) with literal braces, several fields and constant messages"""
+    n = rng.choice([0, 0, 1, 1, 2, 3]) if nfields is None else nfields
+    tmpl, args = rng.choice(LITERALS), []
+    for k in range(n):
+        f = rng.choice(FIELDS)
+        if f == "{0}":
+            if n != 1:
+                f = "{}"
+        tmpl += f + rng.choice(LITERALS)
+        args.append(X.gen_expr(rng, ENV4, rng.choice([0, 0, 1, 2])))
+    return tmpl, args
+
+
+def gen_cond(rng):
+    for _ in range(20):
+        k = rng.random()
+        i = rng.randrange(len(ENV4))
+        if k < 0.3:
+            c = ["ne", ["sig", i], ["const", rng.choice([0, 1, 3, -1])]]
+        elif k < 0.45:
+            c = ["inv", ["sig", i]]            # zero only when the operand is all ones
+        elif k < 0.55:
+            c = [rng.choice(["neg", "as_signed", "as_unsigned", "bool", "any"]), ["sig", i]]
+        else:
+            c = X.gen_expr(rng, ENV4, rng.choice([1, 2]))
+        try:
+            if X.ref_shape(c, ENV4)[0] >= 1:
+                return c
+        except X.IllFormed:
+            continue
+    return ["sig", 0]
+
+
+def run_messages(rng, out):
+    """Hand-written sync monitors in a domain clocked on either edge: Print with several arguments / sep / end,
+    messages as plain strings, Format objects (several fields, literal braces, no fields at all) and nested
+    Formats; Assert / Assume on arbitrary expressions (complements, casts, arithmetic: the condition is its value
+    in its own shape, zero or not) with and without messages, optionally under If.  Text, instant and the stop
+    are compared with Python formatting of the reference values at every event."""
+    from amaranth.hdl import Module, Signal, Shape, ClockDomain, Print, Format, Assert, Assume, Cat
+    from amaranth.sim import Simulator
+    neg = rng.random() < 0.4
+    cd = ClockDomain("sync", reset_less=True, clk_edge="neg" if neg else "pos")
+    if neg:
+        cd.clk = Signal(name="clk_n", init=1)
+    idle = 1 if neg else 0
+    m = Module()
+    m.domains.sync = cd
+    sigs = [Signal(Shape(w, sg), name=f"v{k}") for k, (w, sg) in enumerate(ENV4)]
+    B = lambda ir: X.build(ir, sigs)
+    R = lambda ir, vals: X.ref_eval(ir, ENV4, vals)
+    items = []      # (kind, guard IR or None, payload)
+    desc = []
+
+    def gen_message():
+        """-> (amaranth object, python function vals -> text, description)"""
+        k = rng.random()
+        tmpl, args = gen_template(rng)
+        if k < 0.25 and not args:
+            text = tmpl.format()
+            return text, (lambda vals, text=text: text), ["str", text]
+        if k < 0.85:
+            return Format(tmpl, *[B(a) for a in args]), (lambda vals: tmpl.format(*[R(a, vals) for a in args])), ["format", tmpl, args]
+        outer = rng.choice(["<{}>", "{{{}}}", "{}{{}}"])
+        return (Format(outer, Format(tmpl, *[B(a) for a in args])),
+                (lambda vals: outer.format(tmpl.format(*[R(a, vals) for a in args]))), ["nested", outer, tmpl, args])
+    try:
+        for k in range(rng.randrange(1, 5)):
+            guard = gen_cond(rng) if rng.random() < 0.4 else None
+            if rng.random() < 0.6:
+                parts = []
+                for _ in range(rng.randrange(1, 4)):
+                    if rng.random() < 0.3:
+                        e = X.gen_expr(rng, ENV4, rng.choice([0, 1]))
+                        parts.append((B(e), (lambda vals, e=e: "{}".format(R(e, vals))), ["value", e]))
+                    else:
+                        parts.append(gen_message())
+                sep, end = rng.choice([" ", " ", "", ", ", "{}", "{{"]), rng.choice(["\n", ";", "", "}", "{}\n"])
+                stmt = Print(*[p[0] for p in parts], sep=sep, end=end)
+                fn = (lambda vals, parts=parts, sep=sep, end=end: sep.join(p[1](vals) for p in parts) + end)
+                items.append(("print", guard, fn))
+                desc.append(["print", guard, [p[2] for p in parts], sep, end])
+            else:
+                cond = gen_cond(rng)
+                kind = rng.choice(["Assert", "Assert", "Assume"])
+                msg = gen_message() if rng.random() < 0.7 else None
+                cls = Assert if kind == "Assert" else Assume
+                stmt = cls(B(cond)) if msg is None else cls(B(cond), msg[0])
+                items.append(("check", guard, (cond, kind, msg)))
+                desc.append([kind, guard, cond, msg[2] if msg else None])
+            if guard is None:
+                m.d.sync += stmt
+            else:
+                with m.If(B(guard)):
+                    m.d.sync += stmt
+        sim = Simulator(m)
+    except Exception as ex:
+        if exc_origin(ex) != "repo":
+            raise
+        out["violations"].append({"mechanism": f"message-build-exception:{type(ex).__name__}",
+                                  "detail": {"statements": desc, "exception": repr(ex)[:300]}})
+        return
+    cfg = {"negedge": neg, "statements": desc}
+    out["hist"]["messages:" + ("negedge" if neg else "posedge")] = out["hist"].get("messages:" + ("negedge" if neg else "posedge"), 0) + 1
+    for d in desc:
+        for part in (d[2] if d[0] == "print" else [d[3]] if d[3] else []):
+            hk = "message-form:" + part[0] + (":no-fields" if part[0] in ("format", "nested") and not part[-1] else "")
+            out["hist"][hk] = out["hist"].get(hk, 0) + 1
+    steps, bad = [], []
+    incat = Cat(*sigs)
+
+    def expected(vals):
+        text = ""
+        for kind, guard, payload in items:
+            if guard is not None and R(guard, vals) == 0:
+                continue
+            if kind == "print":
+                text += payload(vals)
+            else:
+                cond, akind, msg = payload
+                if R(cond, vals) == 0:
+                    fail = ("Assertion" if akind == "Assert" else "Assumption") + " violated"
+                    if msg is not None:
+                        fail += ": " + msg[1](vals)
+                    return text, fail
+        return text, None
+
+    async def tb(ctx):
+        vals = [0] * len(ENV4)
+        for n in range(24):
+            buf = io.StringIO()
+            raised = None
+            if rng.random() < 0.45:
+                vals = [rng.choice(corner_values(w, sg, rng, 2)) for (w, sg) in ENV4]
+                steps.append(["in", list(vals)])
+                with contextlib.redirect_stdout(buf):
+                    ctx.set(incat, exprsim.pack(ENV4, vals))
+                exp_text, exp_fail = "", None
+            else:
+                steps.append(["edge"])
+                with contextlib.redirect_stdout(buf):
+                    try:
+                        ctx.set(cd.clk, 1 - idle)
+                    except AssertionError as ex:
+                        raised = str(ex)
+                exp_text, exp_fail = expected(vals)
+                out["extra"]["edges_checked"] += 1
+            out["evaluations"] += 1
+            if raised != exp_fail or buf.getvalue() != exp_text:
+                mech = ("assert-did-not-stop-simulation" if raised is None and exp_fail is not None else
+                        "assert-stopped-simulation-spuriously" if exp_fail is None and raised is not None else
+                        "assert-message-mismatch" if raised != exp_fail else "print-instant-or-text-mismatch")
+                bad.append((mech, {"config": cfg, "steps": list(steps), "simulated": buf.getvalue(), "expected": exp_text,
+                                   "raised": raised, "expected_failure": exp_fail}))
+                return
+            if raised is not None:
+                out["extra"]["assert_stops_checked"] += 1
+                return
+            if steps[-1][0] == "edge":
+                buf2 = io.StringIO()
+                with contextlib.redirect_stdout(buf2):
+                    try:
+                        ctx.set(cd.clk, idle)
+                    except AssertionError as ex:
+                        raised = str(ex)
+                if buf2.getvalue() or raised:
+                    bad.append(("print-or-assert-on-inactive-edge", {"config": cfg, "steps": list(steps), "simulated": buf2.getvalue(), "raised": raised}))
+                    return
+    sim.add_testbench(tb)
+    try:
+        sim.run()
+    except Exception as ex:
+        if exc_origin(ex) != "repo":
+            raise
+        bad.append((f"message-simulation-exception:{type(ex).__name__}", {"config": cfg, "steps": steps, "exception": repr(ex)[:300]}))
+    for mech, b in bad:
+        out["violations"].append({"mechanism": mech + ":hand-written-monitor", "detail": b})
+    out["fps"].add(fp(["messages", cfg]))
+
+
 def shards(tier, seed):
     specs = [{"kind": "gated", "seed": seed, "n": 300 if tier == "quick" else 20000}]
+    for i in range(4):
+        specs.append({"kind": "messages", "seed": seed, "shard": i, "n": 250 if tier == "quick" else 12000})
     for i in range(NSHARDS):
         specs.append({"kind": "format", "part": i, "parts": NSHARDS, "seed": seed, "tier": tier})
         specs.append({"kind": "timing", "seed": seed, "shard": i,
@@ -439,6 +634,10 @@ def run_shard(spec):
         rng = derive_rng("c20g", spec["seed"])
         for _ in range(spec["n"]):
             run_gated(rng, out)
+    elif spec["kind"] == "messages":
+        rng = derive_rng("c20m", spec["seed"], spec["shard"])
+        for _ in range(spec["n"]):
+            run_messages(rng, out)
     elif spec["kind"] == "format":
         rng = derive_rng("c20f", spec["seed"], spec["part"])
         allspecs = list(grammar_specs())
